@@ -35,6 +35,8 @@ type HttpScn struct {
 	Hostname  string    `json:"hostname"`
 	HA        []HAState `json:"ha"` // per login attempt (keygen count); the last one repeats
 	Vsys      []Vsys    `json:"vsys"`
+	Managed   []string  `json:"managed"` // PAN-OS: vsys that carry the rules/services of dev_rules
+	Dirty     bool      `json:"dirty"`   // PAN-OS: nodes of the candidate configuration carry dirtyId/admin/time
 	DevRules  []int     `json:"dev_rules"`  // PAN-OS: rules/services r<i> present in vsys1 of the device
 	DevSvcs   []int     `json:"dev_svcs"`   // NSX: services Netspoc-tcp_<80+i> present on the device
 	BadConfig bool      `json:"bad_config"` // the configuration answer is not decodable
@@ -228,12 +230,24 @@ func (s *httpSim) panos(w http.ResponseWriter, r *http.Request) {
 			return
 		}
 		var vs []string
+		dirty := ""
+		if s.scn.Dirty {
+			dirty = ` dirtyId="7" admin="netspoc" time="2024/09/29 16:19:50"`
+		}
 		for _, v := range s.scn.Vsys {
 			body := ""
-			if v.Name == "vsys1" {
-				body = panVsysBody(s.scn.DevRules)
+			managed := len(s.scn.Managed) == 0 && v.Name == "vsys1"
+			for _, m := range s.scn.Managed {
+				managed = managed || m == v.Name
 			}
-			vs = append(vs, fmt.Sprintf("<entry name=\"%s\"><display-name>%s</display-name>%s</entry>", v.Name, v.Display, body))
+			if managed {
+				body = panVsysBody(s.scn.DevRules)
+				if s.scn.Dirty {
+					body = strings.ReplaceAll(body, "<entry name=", "<entry"+dirty+" name=")
+					body = strings.ReplaceAll(body, "<rules>", "<rules"+dirty+">")
+				}
+			}
+			vs = append(vs, fmt.Sprintf("<entry name=\"%s\"%s><display-name>%s</display-name>%s</entry>", v.Name, dirty, v.Display, body))
 		}
 		vsys := ""
 		if len(vs) > 0 {
